@@ -104,7 +104,7 @@ func badSuggestion(checker, src, wsJSON string) (bad string, fixed []string, off
 	}
 	shape, known := suggestShapes[checker]
 	for _, w := range ws {
-		if strings.Contains(w.Text, "%!") || strings.Contains(w.Text, "<nil>") || strings.Contains(w.Text, "BadExpr") {
+		if strings.Contains(w.Text, "%!") || strings.Contains(w.Text, "<nil>") {
 			return fmt.Sprintf("the suggested code is a formatting failure, not Go code: %q at %s", w.Text, w.Pos), nil, nil
 		}
 		if !known {
